@@ -30,7 +30,19 @@ RULE = ("streams: msg (OSC messages with every value tag ifsbhtdScrmTFNI, 0..12 
         "inside and outside the range, to absent ports, to prefixes and extensions of names, to deep absent paths); "
         "link (ThreadLink of 32..1024 x 2..8 bytes, random op sequences of raw_write / write / writeArray / read / "
         "read_lookahead / hasNext / hasNextLookahead / peak, simulated in the generator so that empty, partly "
-        "filled, wrapped and full rings and oversized writes all occur).  Non-trivial = the RT section did real "
+        "filled, wrapped and full rings and oversized writes all occur; in 30 % of the cases every write is followed "
+        "by reads / look-aheads, so that the ring is read in the state the write left, wrapped included); the varargs "
+        "builders (rtosc_message, ThreadLink::write, RtData::reply / broadcast) also with 32, 33, 40 and 80 "
+        "value-carrying arguments, measuring only and into too small buffers; bundles built IN PLACE (msg stream, 3 per "
+        "case: the element lies at the destination, in its header, where it will land, behind the result, flush with "
+        "the end, across the end, across the start, adjacent before / after; one or two elements, the second outside "
+        "or inside as well; destination exact, larger, too small); hist (histories of 2..8 messages dispatched one "
+        "after the other on ONE object of the static tree, of Leaf::ports, of the ClonePorts table or of a generated "
+        "tree, 70 % of the steps on one focus port, weighted towards the rString ports (16- and 48-byte fields, values "
+        "of 0..200 characters), the option ports (integer, char, known symbol, unknown symbols of 0..300 characters "
+        "with '_' and blanks) and the array ports (other elements of the same array); read-backs; wrong argument "
+        "types; addresses of up to 400 characters and 60 levels that match nothing below the rRecur* ports; with "
+        "location tracking through the nested tables).  Non-trivial = the RT section did real "
         "work: a callback replied or broadcast, a port matched, a message was rebuilt or a ring read returned a "
         "message.")
 TRUSTED = ["the C03 translator: g++ 12.2 -O2 -g -DNDEBUG -fcallgraph-info (.ci files), tools/callgraph.py, its "
@@ -108,6 +120,12 @@ SHAPES = {
     2: enc_msg(b"/w2", "sf", [b"a string argument", 2.5]),
     3: enc_msg(b"/w3", "b", [bytes(range(1, 9))]),
     4: enc_msg(b"/every/tag", "ifsbhtdScrmTFNI", [1, 2.0, b"s", bytes(range(1, 6)), 4, 5, 6.0, b"S", 99, 0x11223344, [0x90, 0x3c, 0x7f, 0]]),
+    # more than 32 value-carrying arguments (MANY33 / MANY32 / MANY40 / MANY80 of the harness): the varargs
+    # interface converts the va_list into an array sized by the type string
+    5: enc_msg(b"/w33", "i" * 33, list(range(1, 9)) * 4 + [9]),
+    6: enc_msg(b"/w32", "i" * 32, list(range(1, 9)) * 4),
+    7: enc_msg(b"/w40", "i" * 16 + "TF" + "i" * 24, list(range(1, 9)) * 5),
+    8: enc_msg(b"/w80", "isfd" * 20, [7, b"str", 1.5, 2.5] * 20),
 }
 
 # ---------------------------------------------------------------------------
@@ -119,6 +137,7 @@ LEAF = [
     (9, "ao", True, ["", "i", "c", "S"]), (10, "am", True, ["", "T", "F"]), (11, "bl", True, ["", "i"]),
     (12, "bl", False, [""]), (13, "str", False, ["", "s"]), (14, "act", False, [""]), (15, "acti", False, ["i"]),
     (16, "is_on", False, [""]), (17, "self", False, [""]), (18, "dummy", False, None), (19, "cross", False, [""]),
+    (20, "lstr", False, ["", "s"]),
 ]
 def argspec(alts):
     if alts is None:
@@ -128,6 +147,14 @@ def argspec(alts):
     return ":" + "".join(":" + a for a in alts)   # "::i:c:S"
 
 OPTS = {4: [b"red", b"blue", b"green", b"teal"], 5: [b"one", b"two", b"three"], 9: [b"x", b"y", b"z"]}
+# symbols that are no option of any port: short ones and ones beyond std::string's 15-byte in-place buffer,
+# spelled with '_' and with blanks (a lookup that normalises the spelling has to copy the value)
+NO_OPTS = [b"nosuchoption", b"", b"r", b"redd", b"no_such_option_at_all", b"State Variable Filter",
+           b"a_rather_long_symbol_that_is_no_option_of_this_port", b"red_blue_green_teal_", b"x" * 16, b"y" * 15, b"z" * 300]
+STR_LENS = [0, 1, 2, 7, 14, 15, 16, 17, 31, 46, 47, 48, 49, 64, 200]
+def rnd_str(rng, n=None):
+    n = rng.choice(STR_LENS) if n is None else n
+    return bytes(rng.choice(b"abcxyz019_ ") for _ in range(n))
 
 def args_for(rng, leaf, kind):
     """(tags, vals) for a message to the given Leaf callback; kind: ok | wrong | all"""
@@ -149,8 +176,10 @@ def args_for(rng, leaf, kind):
         return tags, rnd_args(rng, tags)
     t = rng.choice(alts)
     if t == "S" and idx in OPTS:
-        v = rng.choice(OPTS[idx] + [b"nosuchoption", b""])
+        v = rng.choice(OPTS[idx] + [rng.choice(NO_OPTS), rng.choice(NO_OPTS)])
         return t, [v]
+    if t == "s" and stem in ("str", "lstr"):
+        return t, [rnd_str(rng)]
     return t, rnd_args(rng, t)
 
 # static sugar tree: (relative address from the root, leaf descriptor)
@@ -298,6 +327,91 @@ def gen_generated(rng, dist):
     bump(dist, "disp-mode-" + mode[0] + mode[2])
     return "disp g=4,5,6 %s %s %s" % (spec, enc_msg(addr.encode(), tags, vals).hex(), mode)
 
+# ---------------------------------------------------------------------------
+# histories: several messages, one after the other, to ONE object (what an earlier message stored is what the
+# next callback finds: a value beyond std::string's in-place buffer, a set option, an array element)
+HIST_WEIGHT = {"str": 6, "lstr": 10, "po": 6, "pco": 5, "ao": 6, "af": 3, "at": 3, "ai": 3, "am": 3, "bl": 2}
+
+def hist_step(rng, leaf):
+    """(tags, vals) of one step of a history on the given Leaf callback"""
+    idx, stem, arr, alts = leaf
+    if alts is None or alts == [""]:
+        return args_for(rng, leaf, "ok")
+    r = rng.random()
+    if r < 0.15:
+        return "", []                                   # read back what the previous step stored
+    if r < 0.22:
+        return args_for(rng, leaf, "wrong")
+    if stem in ("str", "lstr"):
+        return "s", [rnd_str(rng, rng.choice([0, 3, 15, 16, 17, 30, 47, 48, 90]))]
+    if idx in OPTS:
+        t = rng.choice("icSSS")
+        if t == "S":
+            return t, [rng.choice(OPTS[idx] + NO_OPTS)]
+        return t, [rng.choice([0, 1, 2, 3, 5, -1, 100])]
+    return args_for(rng, leaf, "ok")
+
+def gen_hist(rng, dist):
+    r = rng.random()
+    if r < 0.45:
+        tree = rng.choice(["S0", "S0", "S0", "S1"])
+        prefix = rng.choice(["mid/"] + ["mids%d/" % i for i in range(2)]) + \
+                 rng.choice(["leaf/", "pleaf/"] + ["leaves%d/" % i for i in range(3)] + ["pleaves%d/" % i for i in range(3)])
+        pool, sub = LEAF, None
+    elif r < 0.6:
+        tree, prefix, pool, sub = "S3", "", LEAF, None
+    elif r < 0.7:
+        tree, prefix, sub = "S2", "", None
+        pool = [l for l in LEAF if l[1] in ("pc", "pf", "po", "str", "lstr", "act")]
+    else:
+        tree, tables = gen_tree(rng, dist)
+        t, prefix, pool = 0, "", None
+        for _ in range(6):
+            flag, ports = tables[t]
+            subs = [p for p in ports if p[3] is not None]
+            if subs and rng.random() < 0.6:
+                p = rng.choice(subs)
+                prefix += p[1] + (str(rng.randint(0, p[4] - 1)) if p[4] else "") + "/"; t = p[3]; continue
+            break
+        pool = [p for p in tables[t][1] if p[2] is not None]
+        sub = True
+        if not pool:
+            return gen_hist(rng, dist)
+    bump(dist, "hist-tree-" + tree[:2].rstrip("-ds:"))
+    def pick():
+        if sub:
+            p = rng.choice(pool)
+            return p[2], p[1] + (str(rng.randint(0, p[4] - 1)) if p[4] else ""), p[4]
+        leaf = rng.choices(pool, [HIST_WEIGHT.get(l[1], 1) for l in pool])[0]
+        return leaf, leaf[1] + (str(rng.randint(0, 3)) if leaf[2] else ""), 4 if leaf[2] else 0
+    focus = pick()
+    bump(dist, "hist-focus-" + focus[0][1])
+    base = rng.choice([0, 1])
+    steps = rng.choice([2, 2, 3, 4, 6, 8])
+    bump(dist, "hist-steps=%d" % steps)
+    msgs = []
+    for _ in range(steps):
+        r = rng.random()
+        if r < 0.7:
+            leaf, name, K = focus
+            if K and rng.random() < 0.3:                 # another element of the same array port
+                name = re.sub(r"\d+$", "", name) + str(rng.randint(0, K - 1))
+        elif r < 0.88:
+            leaf, name, K = pick()
+        else:
+            # nothing matches below the recursion ports: a long remaining address travels down with the message
+            leaf = None
+            name = rng.choice(["nosuch", "x" * rng.choice([16, 100, 400]), "/".join(["deep"] * rng.choice([3, 20, 60])),
+                               focus[1] + "x" * 40, focus[1] + "/" + "y" * 200])
+            bump(dist, "hist-step-long-unmatched-address")
+        tags, vals = hist_step(rng, leaf) if leaf else (rng.choice(["", "i", "s"]), None)
+        if vals is None:
+            vals = rnd_args(rng, tags)
+        msgs.append(enc_msg((("/" if base else "") + prefix + name).encode(), tags, vals).hex())
+    mode = rng.choice("LLLZ") + str(base) + rng.choice("PCC")
+    bump(dist, "hist-mode-" + mode[0] + mode[2])
+    return "hist g=4,5,6 %s %s %s" % (tree, ",".join(msgs), mode)
+
 def gen_msg(rng, dist):
     al = rng.choice([1, 2, 3, 4, 5, 6, 7, 8, 11, 12, 13, 31, 32, 33, 64])
     addr = b"/" + bytes(rng.choice(b"abcdefgh/_09") for _ in range(al - 1))
@@ -306,14 +420,72 @@ def gen_msg(rng, dist):
         tags = VALUE_TAGS
     else:
         tags = "".join(rng.choice(VALUE_TAGS) for _ in range(nt))
-    m = rnd_msg(rng, addr, tags)
+    vals = rnd_args(rng, tags)
+    m = enc_msg(addr, tags, vals)
     L = len(m)
+    # layout, for the in-place bundles: where the type string starts / ends and where the blobs' length fields are
+    a0 = len(pad4z(addr)); a1 = a0 + len(pad4z(b"," + tags.encode()))
+    blobs, pos, k = [], a1, 0
+    for t in tags:
+        if t in "TFNI":
+            continue
+        if t == "b":
+            blobs.append(pos)
+        pos += len(enc_arg(t, vals[k])); k += 1
+    lay = (a0, a1, blobs)
     cap = rng.choice([0, max(0, L - 1), L, L + 1, L + 8, 4, 16, 8192, max(0, L - 4)])
     bump(dist, "msg-cap-" + ("lt" if cap < L else "eq" if cap == L else "gt"))
     bump(dist, "msg-nargs=%d" % len(tags))
     for t in set(tags):
         bump(dist, "msg-tag-" + t)
-    return "msg g=1,2 %s %d %d %d" % (m.hex(), cap, rng.randint(0, 5), L)
+    shape = rng.randint(0, 9)
+    bump(dist, "msg-varargs-" + ("more-than-32-values" if shape in (6, 8, 9) else "32-values" if shape == 7 else "few-values"))
+    return "msg g=1,2 %s %d %d %d %s" % (m.hex(), cap, shape, L, ",".join(inplace(rng, dist, L, lay) for _ in range(3)))
+
+def inplace(rng, dist, L, lay):
+    """one bundle built in place: <off>:<dlen>:<n>[:<off2>] - the message (L bytes) lies at destination+off.
+
+    What the pinned rtosc_bundle does with an overlapping element (memory safety is C02's subject, the harness
+    has to survive it): it clears the destination first, then measures every element twice - for the fit test
+    and again right before copying it, after '#bundle' and the time tag have been written.  An element inside
+    the destination is all zero by then (length 0, or 16 when it starts at the destination: it reads as an empty
+    bundle); one reaching past the end has lost its head (0, or its own length when only a 4-byte address was
+    cleared).  An element that starts BEFORE the destination keeps its head and gets '#bundle'+time tag as
+    its body for the second measurement: a blob length taken from those bytes sends memcpy far out of every
+    buffer (seen: SIGSEGV).  Such a cut is generated only where both measurements stay within the message:
+    inside the address / at the ',' (no message any more), or behind the type string with every blob's
+    length field before the cut."""
+    a0, a1, blobs = lay
+    n = rng.choice([1, 1, 1, 2, 2])
+    total = 16 + n * (4 + L)
+    dlen = rng.choice([total, total, total + 4, total + 64, total + 256 + L, 2 * total, max(0, total - 4), 16, 8192])
+    how = rng.choice(["same-pointer", "in-header", "landing-spot", "behind-the-result", "flush-with-the-end", "inside",
+                      "straddles-the-end", "straddles-the-end", "straddles-the-start", "straddles-the-start",
+                      "adjacent-before", "adjacent-after"])
+    k = rng.choice([4, 8, 12, max(4, L // 2 // 4 * 4), max(4, L - 4)])
+    off = {"same-pointer": 0, "in-header": rng.choice([4, 8, 12]), "landing-spot": rng.choice([16, 20, 24]),
+           "behind-the-result": total + rng.choice([0, 4, 32]), "flush-with-the-end": dlen - L,
+           "inside": rng.randrange(0, max(1, dlen - L), 4) if dlen > L else 0,
+           "straddles-the-end": dlen - L + min(k, L), "straddles-the-start": -min(k, L),
+           "adjacent-before": -L, "adjacent-after": dlen}[how]
+    off = max(-L, min(off, dlen))
+    if -L < off < 0:
+        cut = -off
+        if not (cut <= a0 or (cut >= a1 and all(b + 4 <= cut for b in blobs))):
+            cut = rng.choice([c for c in range(4, a0 + 1, 4)] + [c for c in range(a1, L, 4) if all(b + 4 <= c for b in blobs)])
+            off = -cut
+    bump(dist, "bundle-in-place-" + how)
+    bump(dist, "bundle-in-place-" + ("fits" if total <= dlen else "does-not-fit"))
+    if n == 2 and rng.random() < 0.6 and 0 <= off and off + L <= dlen:
+        # the second element in the destination as well, next to the first where there is room (both entirely
+        # inside: what the pinned code copies for an element it could still read lands where the second lies)
+        off2 = off + L + rng.choice([0, 4, 16])
+        if off2 + L > dlen:
+            off2 = off - L - rng.choice([0, 4])
+        if 0 <= off2 and off2 + L <= dlen:
+            bump(dist, "bundle-in-place-two-elements-inside")
+            return "%d:%d:%d:%d" % (off, dlen, n, off2)
+    return "%d:%d:%d" % (off, dlen, n)
 
 PATTERNS = ["abc", "abc:", "abc::i", "abc::i:f:s", "a#8", "a#8/", "foo/", "foo#16/", "a*", "*", "{ab,cd}x", "{ab,cd}",
             "{ab,abc}d", "x{1,2,3}", "bar#3::T:F", "volume::c", "a/b", "a#2/b#3", ""]
@@ -348,12 +520,16 @@ def gen_link(rng, dist):
     maxmsg = rng.choice([32, 64, 128, 1024])
     nmsg = rng.choice([2, 3, 4, 8])
     size = maxmsg * nmsg
-    fifo, la, used, wpos = [], 0, 0, 0
+    fifo, la, used, wpos, rpos = [], 0, 0, 0, 0
     ops, res = [], []
     seen = set()
+    scripted = rng.random() < 0.3     # every write is followed by reads: the ring is read in the state the write left
+    follow = []
     for _ in range(rng.choice([4, 8, 16, 32, 48])):
         free = size - 1 - used
         r = rng.random()
+        if follow:
+            r = follow.pop(0)
         if r < 0.45:
             k = rng.random()
             if k < 0.5:
@@ -369,7 +545,7 @@ def gen_link(rng, dist):
                     L = 0; seen.add("oversized-raw_write" if op == "w" else "oversized-writeArray")
                 op += m.hex()
             else:
-                s = rng.randint(0, 4)
+                s = rng.randint(0, 8)
                 op = "W%d" % s; L = len(SHAPES[s])
                 if L > maxmsg:
                     L = 0; seen.add("oversized-write")
@@ -380,10 +556,14 @@ def gen_link(rng, dist):
             elif L:
                 seen.add("full-write-dropped")
             ops.append(op)
+            if scripted:
+                follow = [rng.choice([0.5, 0.75, 0.85, 0.93]) for _ in range(rng.choice([1, 2, 3]))]
         elif r < 0.7:
             ops.append("r")
             if fifo:
                 L = fifo.pop(0); used -= L; la = 0; res.append("r%d" % L)
+                rpos = (rpos + L) % size
+                if rpos < L and rpos: seen.add("read-of-a-wrapped-message")
             else:
                 res.append("r-1"); seen.add("read-on-empty")
         elif r < 0.82:
@@ -411,6 +591,7 @@ def gen(rng, tier, dist):
     for _ in range(700 * scale):  out.append(gen_static(rng, dist))
     for _ in range(900 * scale):  out.append(gen_generated(rng, dist))
     for _ in range(150 * scale):  out.append(gen_cloned(rng, dist))
+    for _ in range(500 * scale):  out.append(gen_hist(rng, dist))
     for _ in range(500 * scale):  out.append(gen_msg(rng, dist))
     for _ in range(250 * scale):  out.append(gen_match(rng, dist))
     for _ in range(60 * scale):   out.append(gen_reply(rng, dist))
@@ -470,7 +651,7 @@ def spec_check(case, impl):
 
 def nontrivial(case, impl):
     s = case.split(" ", 1)[0]
-    if s == "disp":
+    if s in ("disp", "hist"):
         m = re.search(r"matches=(\d+) replies=(\d+) broadcasts=(\d+)", impl)
         return bool(m and (int(m.group(1)) or int(m.group(2)) or int(m.group(3))))
     if s == "msg":
@@ -502,6 +683,17 @@ def minimise(case, impl, failure, run):
             r = fails(c)
             if r:
                 ops = cand; best = (c, r[0], r[1])
+            else:
+                i += 1
+    elif f[0] == "hist":
+        ms = f[3].split(",")
+        i = 0
+        while i < len(ms) and len(ms) > 1:
+            cand = ms[:i] + ms[i + 1:]
+            c = " ".join(f[:3] + [",".join(cand)] + f[4:])
+            r = fails(c)
+            if r:
+                ms = cand; best = (c, r[0], r[1])
             else:
                 i += 1
     elif f[0] == "disp" and f[2].startswith("G"):
